@@ -267,7 +267,7 @@ C   ANY DAMAGES THAT MAY RESULT FROM THE USE OF THE PROGRAM.
 
       SUBROUTINE AMP_SCAT_MATRIX(AXI, RAT, LAM, MRR, MRI, EPS, NP, NDGS,
      &                           ALPHA, BETA, THET0, THET, PHI0, PHI,
-     &                           S11, S12, S21, S22, MAXITER) 
+     &                           S11, S12, S21, S22, MAXITER, IERR)
       IMPLICIT REAL*8 (A-H,O-Z)
       INCLUDE 'ampld.par.f'
       REAL*8  LAM,MRR,MRI,X(NPNG2),W(NPNG2),S(NPNG2),SS(NPNG2),
@@ -281,7 +281,7 @@ C   ANY DAMAGES THAT MAY RESULT FROM THE USE OF THE PROGRAM.
      &     IT11(NPN6,NPN4,NPN4),IT12(NPN6,NPN4,NPN4),
      &     IT21(NPN6,NPN4,NPN4),IT22(NPN6,NPN4,NPN4)
       COMPLEX*16 S11,S12,S21,S22
-      INTEGER MAXITER
+      INTEGER MAXITER, IERR
  
       COMMON /CT/ TR1,TI1
       COMMON /TMAT/ RT11,RT12,RT21,RT22,IT11,IT12,IT21,IT22
@@ -302,6 +302,11 @@ C       EPS=0.5 D0
 C       NP=-1
       DDELT=0.001D0 
 C       NDGS=2
+C  IERR reports failures to the caller instead of STOP (which would end
+C  the calling process): 1 particle too large for NPN1, 2 NGAUSS exceeds
+C  NPNG1, 3 no convergence up to NPN1, 4 NMAX exceeds NPN1 in VARY,
+C  5 angular parameter out of range (set in AMPL)
+      IERR=0
 
       P=DACOS(-1D0)
       NCHECK=0
@@ -342,7 +347,10 @@ C       IF (DABS(RAT-1D0).GT.1D-6) PRINT 8004, AXI
       IXXX=XEV+4.05D0*XEV**0.333333D0
       INM1=MAX0(4,IXXX)
 C       IF (INM1.GE.NPN1) PRINT 7333, NPN1
-      IF (INM1.GE.NPN1) STOP
+      IF (INM1.GE.NPN1) THEN
+         IERR=1
+         RETURN
+      ENDIF
  7333 FORMAT('CONVERGENCE IS NOT OBTAINED FOR NPN1=',I3,  
      &       '.  EXECUTION TERMINATED')
       QEXT1=0D0
@@ -352,13 +360,17 @@ C       IF (INM1.GE.NPN1) PRINT 7333, NPN1
          MMAX=1
          NGAUSS=NMAX*NDGS
 C          IF (NGAUSS.GT.NPNG1) PRINT 7340, NGAUSS
-         IF (NGAUSS.GT.NPNG1) STOP
+         IF (NGAUSS.GT.NPNG1) THEN
+            IERR=2
+            RETURN
+         ENDIF
  7340    FORMAT('NGAUSS =',I3,' I.E. IS GREATER THAN NPNG1.',
      &          '  EXECUTION TERMINATED')
  7334    FORMAT(' NMAX =', I3,'  DC2=',D8.2,'   DC1=',D8.2)
          CALL CONST(NGAUSS,NMAX,MMAX,P,X,W,AN,ANN,S,SS,NP,EPS)
          CALL VARY(LAM,MRR,MRI,A,EPS,NP,NGAUSS,X,P,PPI,PIR,PII,R,
-     &              DR,DDR,DRR,DRI,NMAX)
+     &              DR,DDR,DRR,DRI,NMAX,IERR)
+         IF (IERR.NE.0) RETURN
          CALL TMATR0 (NGAUSS,X,W,AN,ANN,S,SS,PPI,PIR,PII,R,DR,
      &                 DDR,DRR,DRI,NMAX,NCHECK)
          QEXT=0D0
@@ -382,7 +394,10 @@ c  C     PRINT 7334, NMAX,DSCA,DEXT
          MAXITER=NMAX
          IF(DSCA.LE.DDELT.AND.DEXT.LE.DDELT) GO TO 55
 C          IF (NMA.EQ.NPN1) PRINT 7333, NPN1
-         IF (NMA.EQ.NPN1) STOP      
+         IF (NMA.EQ.NPN1) THEN
+            IERR=3
+            RETURN
+         ENDIF
    50 CONTINUE
    55 NNNGGG=NGAUSS+1
       MMAX=NMAX
@@ -395,7 +410,8 @@ C       IF (NGAUSS.EQ.NPNG1) PRINT 7336
  7337    FORMAT(' NG=',I3,'  DC2=',D8.2,'   DC1=',D8.2)
          CALL CONST(NGAUSS,NMAX,MMAX,P,X,W,AN,ANN,S,SS,NP,EPS)
          CALL VARY(LAM,MRR,MRI,A,EPS,NP,NGAUSS,X,P,PPI,PIR,PII,R,
-     &              DR,DDR,DRR,DRI,NMAX)
+     &              DR,DDR,DRR,DRI,NMAX,IERR)
+         IF (IERR.NE.0) RETURN
          CALL TMATR0 (NGAUSS,X,W,AN,ANN,S,SS,PPI,PIR,PII,R,DR,
      &                 DDR,DRR,DRI,NMAX,NCHECK)
          QEXT=0D0
@@ -506,7 +522,8 @@ C       PHI0=114D0
 C       PHI=128D0
 C  AMPLITUDE MATRIX [Eqs. (2)-(4) of Ref. 6]
       CALL AMPL (NMAX,LAM,THET0,THET,PHI0,PHI,ALPHA,BETA,
-     &           S11,S12,S21,S22)     
+     &           S11,S12,S21,S22,IERR)
+      IF (IERR.NE.0) RETURN
 C  PHASE MATRIX [Eqs. (13)-(29) of Ref. 6]
 C       Z11=0.5D0*(S11*DCONJG(S11)+S12*DCONJG(S12)
 C      &          +S21*DCONJG(S21)+S22*DCONJG(S22))
@@ -549,7 +566,7 @@ C********************************************************************
 C   CALCULATION OF THE AMPLITUDE MATRIX       
  
       SUBROUTINE AMPL (NMAX,DLAM,TL,TL1,PL,PL1,ALPHA,BETA,
-     &                 VV,VH,HV,HH)  
+     &                 VV,VH,HV,HH,IERR)
       INCLUDE 'ampld.par.f'
       IMPLICIT REAL*8 (A-B,D-H,O-Z), COMPLEX*16 (C)
       REAL*8 AL(3,2),AL1(3,2),AP(2,3),AP1(2,3),B(3,3),
@@ -564,6 +581,7 @@ C   CALCULATION OF THE AMPLITUDE MATRIX
       COMPLEX*16 CAL(NPN4,NPN4),VV,VH,HV,HH
       COMMON /TMAT/ TR11,TR12,TR21,TR22,TI11,TI12,TI21,TI22
 
+      IERR=0
       IF (ALPHA.LT.0D0.OR.ALPHA.GT.360D0.OR.
      &    BETA.LT.0D0.OR.BETA.GT.180D0.OR.
      &    TL.LT.0D0.OR.TL.GT.180D0.OR.
@@ -571,7 +589,8 @@ C   CALCULATION OF THE AMPLITUDE MATRIX
      &    PL.LT.0D0.OR.PL.GT.360D0.OR.
      &    PL1.LT.0D0.OR.PL1.GT.360D0) THEN 
 C         WRITE (6,2000)
-          STOP
+          IERR=5
+          RETURN
       ELSE
           CONTINUE
       ENDIF  
@@ -953,7 +972,7 @@ C**********************************************************************
 C**********************************************************************
  
       SUBROUTINE VARY (LAM,MRR,MRI,A,EPS,NP,NGAUSS,X,P,PPI,PIR,PII,
-     *                 R,DR,DDR,DRR,DRI,NMAX)
+     *                 R,DR,DDR,DRR,DRI,NMAX,IERR)
       INCLUDE 'ampld.par.f'
       IMPLICIT REAL*8 (A-H,O-Z)
       REAL*8  X(NPNG2),R(NPNG2),DR(NPNG2),MRR,MRI,LAM,
@@ -992,7 +1011,10 @@ C**********************************************************************
            ZI(I)=V2
    10 CONTINUE
 C       IF (NMAX.GT.NPN1) PRINT 9000,NMAX,NPN1
-      IF (NMAX.GT.NPN1) STOP
+      IF (NMAX.GT.NPN1) THEN
+         IERR=4
+         RETURN
+      ENDIF
  9000 FORMAT(' NMAX = ',I2,', i.e., greater than ',I3)
       TB=TA*DSQRT(MRR*MRR+MRI*MRI)
       TB=DMAX1(TB,DFLOAT(NMAX))
